@@ -31,6 +31,9 @@ class StabNonblocking(Unit):
         for jit in ("LATEST", "BUFFER"):
             yield jit, dict(clock="SIMULATED", jitter=jit, blocking=False)
 
+    def opts(self, cfg):
+        return {"opaque_div": True}
+
     def summaries(self, cfg):
         return conn_summaries(["push_selection"])
 
